@@ -10,12 +10,69 @@ import (
 	"strings"
 	"sync"
 	"unicode/utf8"
+	"unsafe"
 
 	"github.com/sivchari/govalid/validation/validationhelper"
 )
 
 // implRec runs the REAL function on s; "panic" if it panics.
+// sameHeader evaluates the recognizer on a string built in ONE reused buffer: consecutive inputs of the same length then share
+// data address and length (what `string(buf[:n])` at one call site, a scanner line or an edited read buffer give a caller) —
+// a memo keyed by the string header instead of its bytes returns the previous input's verdict
+var headerBuf [64]byte
+
+// the previous input of each length: it is evaluated through the buffer FIRST, so that the call under test directly follows a
+// call with the same string header and different bytes
+var lastByLen = map[int]string{}
+
+func sameHeader(f func(string) bool, s string) bool {
+	n := copy(headerBuf[:], s)
+	return f(unsafe.String(&headerBuf[0], n))
+}
+
 func implRec(fn, s string) (res string) {
+	res = implRec1(fn, s)
+	if len(s) == 0 || len(s) > len(headerBuf) {
+		return res
+	}
+	var f func(string) bool
+	switch fn {
+	case "uuid":
+		f = validationhelper.IsValidUUID
+	case "url":
+		f = validationhelper.IsValidURL
+	case "email":
+		f = validationhelper.IsValidEmail
+	case "alpha":
+		f = validationhelper.IsValidAlpha
+	case "numeric":
+		f = validationhelper.IsNumeric
+	default:
+		return res
+	}
+	prev := lastByLen[len(s)]
+	lastByLen[len(s)] = s
+	second := func() (r string) {
+		defer func() {
+			if recover() != nil {
+				r = "panic"
+			}
+		}()
+		if prev != "" && prev != s {
+			_ = sameHeader(f, prev)
+		}
+		if sameHeader(f, s) {
+			return "true"
+		}
+		return "false"
+	}()
+	if second != res {
+		return res + "/" + second + "(same bytes in a reused buffer, right after another input of the same length)"
+	}
+	return res
+}
+
+func implRec1(fn, s string) (res string) {
 	defer func() {
 		if r := recover(); r != nil {
 			res = "panic"
